@@ -1,5 +1,6 @@
 """C06 — non-forced runs leave every output equal to a forced run (history testing of the CLI Runner)."""
 import os
+import re
 import shutil
 import tempfile
 
@@ -10,7 +11,7 @@ from vf import core
 PROPERTY = 'C06'
 LEVEL = 'exploration'
 RULE = ('scratch CLI projects (module graphs pair/chain/diamond/4-chain spread over two input directories, output_dirs built from an injective family: a glob rule "{in}/*:{out}", a prefix rule "{in}/:{out}" and the fallback); '
-	'histories of edit(module, variant), run, run -f, delete-output(module), corrupt-header(module: remove the line / change the recorded hash / garble the JSON); oracle after every non-forced run: the output tree (paths and bytes) equals '
+	'histories of edit(module, variant), run, run -f, delete-output(module), corrupt-header(module: remove the line / change the recorded hash, application version, transpiler version, transpiler class or module path / garble the JSON); oracle after every non-forced run: the output tree (paths and bytes) equals '
 	'the tree a forced run writes on a copy; files whose content and header already equal the forced result keep their mtime; every output starts with a header that MetaHeader reads back to the same string; '
 	'the set of output paths equals the reference model of the mapping rules (all distinct); non-trivial = two runs with an edit of an imported module between them, or a delete-output/corrupt-header before a non-forced run; distinct by (graph, history)')
 ASSUMPTIONS = [
@@ -38,7 +39,7 @@ def cases(draw, exclude: frozenset = frozenset()):
 		visible = rnd.randint(0, P.VISIBLE[m] - 1)
 		if 'dependency-visible-edit' in exclude and P.dependents(graph, m):
 			visible = 0  # known finding: importers are not regenerated after a dependency edit; keep such edits invisible
-		mode = rnd.choice(['remove', 'hash', 'garble'])
+		mode = rnd.choice(['remove', 'hash', 'garble', 'app-version', 'transpiler-version', 'module-path', 'transpiler-module'])
 		if 'garbled-header' in exclude and mode == 'garble':
 			mode = 'hash'
 		ops.append([k, m, visible, rnd.randint(1, 3), mode])
@@ -112,6 +113,14 @@ def judge(scratch: str, case: dict) -> tuple[list[tuple[str, str]], dict]:
 						lines = lines[1:]
 					elif mode == 'hash':
 						lines[0] = lines[0].replace('"hash":"', '"hash":"0')
+					elif mode == 'app-version':  # an output left behind by another release of the application
+						lines[0] = re.sub(r'\{"version":"[^"]*"', '{"version":"0.9.9"', lines[0], count=1)
+					elif mode == 'transpiler-version':
+						lines[0] = re.sub(r'"transpiler":\{"version":"[^"]*"', '"transpiler":{"version":"0.9.9"', lines[0], count=1)
+					elif mode == 'module-path':
+						lines[0] = lines[0].replace('"path":"', '"path":"zz.', 1)
+					elif mode == 'transpiler-module':
+						lines[0] = lines[0].replace('Py2Cpp"', 'Py2Cxx"', 1)
 					else:
 						lines[0] = lines[0][:len(lines[0]) // 2]
 					with open(path_out, 'w') as f:
